@@ -2792,6 +2792,8 @@ package gocql
 //@   stable_across GetHosts: r.session.ring.hosts, r.session.ring.hostIPToUUID, r.session.ring.hostList, r.session.pool.hostConnPools
 //@   stable_across Session.removeHost: prevHosts, hosts
 //@   stable_across startPoolFill: prevHosts, hosts
+//@   stable_across ring.addHostIfMissing: prevHosts, hosts
+//@   stable_across update: prevHosts, hosts
 //@   before ring.addHostIfMissing: arg1 == h
 //@   before startPoolFill: arg1 == h
 //@   before[@loop0] Session.removeHost: arg1 == existing
